@@ -12,7 +12,7 @@ import math
 import re
 from typing import Any, Dict, List, Optional, Sequence, Tuple
 
-from .device import DeviceRun, unhex
+from .device import DeviceRun, unhex, unhex_latin1
 
 _NUM = r"[-+]?(?:\d+\.?\d*|\.\d+)(?:[eE][-+]?\d+)?"
 _HOST_TOKEN = re.compile(r"(True|False|" + _NUM + ")")
@@ -81,6 +81,9 @@ class DeviceState:
         self.lcd: Dict[int, str] = {}
         self.tone: Dict[int, Optional[int]] = {}
         self.modes: Dict[int, str] = {}
+        self.glyphs: Dict[int, Dict[int, tuple]] = {}
+        self.lcd_backlight: Dict[int, bool] = {}
+        self.lcd_display: Dict[int, bool] = {}
 
     def copy(self) -> "DeviceState":
         other = DeviceState()
@@ -89,6 +92,9 @@ class DeviceState:
         other.lcd = dict(self.lcd)
         other.tone = dict(self.tone)
         other.modes = dict(self.modes)
+        other.glyphs = {k: dict(v) for k, v in self.glyphs.items()}
+        other.lcd_backlight = dict(self.lcd_backlight)
+        other.lcd_display = dict(self.lcd_display)
         return other
 
 
@@ -101,7 +107,7 @@ def reduce_device(run: DeviceRun) -> List[tuple]:
         k = ev.kind
         a = ev.args
         if k == "lcd_dump":
-            st.lcd[int(a[0])] = unhex(a[1]) if len(a) > 1 else ""
+            st.lcd[int(a[0])] = unhex_latin1(a[1]) if len(a) > 1 else ""
             if attach and obs:
                 obs[-1][2].lcd[int(a[0])] = st.lcd[int(a[0])]
             continue
@@ -120,6 +126,18 @@ def reduce_device(run: DeviceRun) -> List[tuple]:
             st.tone[int(a[0])] = int(a[1])
         elif k == "notone":
             st.tone[int(a[0])] = None
+        elif k == "lcd":
+            lid = int(a[0])
+            if a[1] == "createChar":
+                st.glyphs.setdefault(lid, {})[int(a[2])] = tuple(int(x) for x in a[3:11])
+            elif a[1] in ("backlight", "init"):
+                st.lcd_backlight[lid] = True
+            elif a[1] == "noBacklight":
+                st.lcd_backlight[lid] = False
+            elif a[1] in ("display", "begin"):
+                st.lcd_display[lid] = True
+            elif a[1] == "noDisplay":
+                st.lcd_display[lid] = False
         elif k == "delay":
             ms = int(a[0])
             if ms > 0:
@@ -197,6 +215,16 @@ def snapshot_diff(host_snap: Dict[Any, Any], dev: DeviceState, *, check_lcd: boo
                 want_dir = (1, 0) if applied > 0 else (0, 1)
                 if (d1, d2) != want_dir:
                     return f"motor: host applied {applied}, device direction pins {(d1, d2)}"
+        elif tag == "glyphs" and check_lcd:
+            idx = key[1]
+            got = dev.glyphs.get(idx, {})
+            for slot, rows in hv.items():
+                if tuple(got.get(slot, ())) != tuple(rows):
+                    return f"lcd {idx} glyph slot {slot}: host rows {list(rows)}, device uploaded {list(got.get(slot, ()))}"
+        elif tag == "lcdbl" and check_lcd:
+            idx = key[1]
+            if idx in dev.lcd_backlight and dev.lcd_backlight[idx] != bool(hv):
+                return f"lcd {idx} (I2C) backlight: host {'on' if hv else 'off'}, device {'on' if dev.lcd_backlight[idx] else 'off'}"
         elif tag == "lcd" and check_lcd:
             idx = key[1]
             if idx in dev.lcd:
